@@ -55,6 +55,7 @@ def overlays():
         'pkg/resmgr/zz_verif_sysfsgen_test.go': pkgcopy(os.path.join(HS, 'common', 'sysfsgen.go'), 'resmgr', 'sysfsgen_resmgr_test.go'),
         'cmd/plugins/topology-aware/policy/zz_verif_snapshot.go': os.path.join(HS, 'fullstack', 'ta_snapshot.go'),
         'cmd/plugins/balloons/policy/zz_verif_snapshot.go': os.path.join(HS, 'fullstack', 'bln_snapshot.go'),
+        'pkg/resmgr/control/cpu/zz_verif_snapshot.go': os.path.join(HS, 'fullstack', 'cpuclass_snapshot.go'),
     }
 
 
